@@ -114,8 +114,11 @@ func (m MapSchema[K, V]) Unserialize(data any) (any, error) {
 
 	t := m.ReflectedType()
 	result := reflect.MakeMapWithSize(t, v.Len())
-	for _, k := range v.MapKeys() {
-		val := v.MapIndex(k)
+	// MapRange, not MapKeys+MapIndex: a NaN key (which CBOR can deliver) cannot be looked up again.
+	mapIterator := v.MapRange()
+	for mapIterator.Next() {
+		k := mapIterator.Key()
+		val := mapIterator.Value()
 
 		unserializedKey, err := m.KeysValue.Unserialize(k.Interface())
 		if err != nil {
@@ -216,11 +219,13 @@ func (m MapSchema[K, V]) ValidateCompatibility(typeOrData any) error {
 		}
 	}
 
-	for _, k := range v.MapKeys() {
+	mapIterator := v.MapRange()
+	for mapIterator.Next() {
+		k := mapIterator.Key()
 		if err := m.KeysValue.ValidateCompatibility(k.Interface()); err != nil {
 			return ConstraintErrorAddPathSegment(err, fmt.Sprintf("{%v}", k))
 		}
-		if err := m.ValuesValue.ValidateCompatibility(v.MapIndex(k).Interface()); err != nil {
+		if err := m.ValuesValue.ValidateCompatibility(mapIterator.Value().Interface()); err != nil {
 			return ConstraintErrorAddPathSegment(err, fmt.Sprintf("[%v]", k))
 		}
 	}
@@ -246,11 +251,13 @@ func (m MapSchema[K, V]) Validate(data any) error {
 		}
 	}
 
-	for _, k := range v.MapKeys() {
+	mapIterator := v.MapRange()
+	for mapIterator.Next() {
+		k := mapIterator.Key()
 		if err := m.KeysValue.Validate(k.Interface()); err != nil {
 			return ConstraintErrorAddPathSegment(err, fmt.Sprintf("{%v}", k))
 		}
-		if err := m.ValuesValue.Validate(v.MapIndex(k).Interface()); err != nil {
+		if err := m.ValuesValue.Validate(mapIterator.Value().Interface()); err != nil {
 			return ConstraintErrorAddPathSegment(err, fmt.Sprintf("[%v]", k))
 		}
 	}
@@ -264,12 +271,14 @@ func (m MapSchema[K, V]) Serialize(data any) (any, error) {
 
 	v := reflect.ValueOf(data)
 	result := make(map[any]any, v.Len())
-	for _, k := range v.MapKeys() {
+	mapIterator := v.MapRange()
+	for mapIterator.Next() {
+		k := mapIterator.Key()
 		serializedKey, err := m.KeysValue.Serialize(k.Interface())
 		if err != nil {
 			return nil, ConstraintErrorAddPathSegment(err, fmt.Sprintf("{%v}", k))
 		}
-		serializedValue, err := m.ValuesValue.Serialize(v.MapIndex(k).Interface())
+		serializedValue, err := m.ValuesValue.Serialize(mapIterator.Value().Interface())
 		if err != nil {
 			return nil, ConstraintErrorAddPathSegment(err, fmt.Sprintf("[%v]", k))
 		}
